@@ -16,14 +16,14 @@ import (
 // evolve.
 
 type decOut struct {
-	Panic    string   // non-empty: the call panicked (or hung)
-	ErrClass int      // 0 nil, 1 error, 2 IntegrityError
-	ErrText  string   // implementation: err.Error(); model: error constructor
-	Pos      int      // bytes consumed from the reader
-	Hdr      string   // canonical header ("-" when not reported)
-	Files    []string // canonical Files ("nil" entries for absent ones)
-	G        string   // model only: accumulator state after the call
-	Quirks   []int    // model only: quirk tags raised
+	Panic    string      // non-empty: the call panicked (or hung)
+	ErrClass int         // 0 nil, 1 error, 2 IntegrityError
+	ErrText  string      // implementation: err.Error(); model: error constructor
+	Pos      int         // bytes consumed from the reader
+	Hdr      string      // canonical header ("-" when not reported)
+	Files    []string    // canonical Files ("nil" entries for absent ones)
+	G        string      // model only: accumulator state after the call
+	Quirks   []int       // model only: quirk tags raised
 	Raw      []*fit.File `json:"-"` // implementation only: the Files returned
 }
 
@@ -261,15 +261,35 @@ func (w *world) decodeModelOnly(entry string, o optSet, rs readerSpec) (decOut, 
 // property does not concern accumulated values compare modulo it, so that an
 // implementation-only call made in between (which moves the library's
 // accumulators but not the model's mirror) cannot raise a false alarm.
-func maskAccumText(canon string) string {
+func maskAccumText(canon string) string { return maskAccumTextX(canon, false) }
+
+// maskAccumTextX: with alsoSpeed the fields derived from the compressed speed one expansion pass late
+// (EnhancedSpeed; recorded with the same finding for C07) are masked too.
+func maskAccumTextX(canon string, alsoSpeed bool) string {
+	return maskAccumTextL(canon, alsoSpeed, false)
+}
+
+// hasShortCsd: some record message carries a compressed_speed_distance array of fewer than 3 bytes.
+func hasShortCsd(canon string) bool {
+	return maskAccumTextL(canon, true, true) != maskAccumTextL(canon, true, false)
+}
+
+// maskAccumTextL: with shortCsd, records whose compressed_speed_distance array has fewer than 3 bytes also get
+// Speed masked (re-encoding pads the array to 3 bytes with 0xFF, which expandComponents then takes for a valid
+// source: known finding csd_array_length).
+func maskAccumTextL(canon string, alsoSpeed, shortCsd bool) string {
 	rt := reflect.TypeOf(fit.RecordMsg{})
-	di, ci := -1, -1
+	di, ci, ei, si := -1, -1, -1, -1
 	for i := 0; i < rt.NumField(); i++ {
 		switch rt.Field(i).Name {
 		case "Distance":
 			di = i
 		case "CompressedSpeedDistance":
 			ci = i
+		case "EnhancedSpeed":
+			ei = i
+		case "Speed":
+			si = i
 		}
 	}
 	tag := strconv.Itoa(int(fit.MesgNumRecord)) + "["
@@ -302,6 +322,15 @@ func maskAccumText(canon string) string {
 		fs := strings.Split(body, ";")
 		if len(fs) == rt.NumField() && fs[ci] != "n" && fs[ci] != "l(u255,u255,u255)" {
 			fs[di] = "u0"
+			if alsoSpeed && ei >= 0 {
+				fs[ei] = "u0"
+			}
+			if shortCsd && si >= 0 && strings.Count(fs[ci], ",") != 2 {
+				fs[si], fs[ci] = "u0", "n"
+				if ei >= 0 {
+					fs[ei] = "u0"
+				}
+			}
 		}
 		out.WriteString(rest[:k+len(tag)])
 		out.WriteString(strings.Join(fs, ";"))
